@@ -507,6 +507,9 @@ def run(ctx):
     RECV_MEASURE_TAKES_BASES[0] = {"basis_local", "basis_remote", "rotations_local", "rotations_remote"} <= set(
         inspect.signature(EPRSocket.recv_measure).parameters)
     ctx.coverage["recv_measure_takes_bases"] = RECV_MEASURE_TAKES_BASES[0]
+    methods, diffs = ec.signature_defaults_report()
+    ctx.gen_obligation("every public create*/recv* method of EPRSocket has the documented default for every parameter "
+                       "(frozen table, compared with inspect.signature)", not diffs and bool(methods), "; ".join(diffs))
     if ok:
         r = ctx.coqc("Gen_Epr.v")
         ctx.gen_obligation("Gen_Epr.v type-checks", r.ok, r.err[-300:])
